@@ -484,7 +484,7 @@ def desugar(F):
 _IT = 'std::iter::Iterator::'
 FUSE_ADAPTORS = {_IT + 'map': 'map', _IT + 'filter': 'filter', _IT + 'filter_map': 'filter_map', _IT + 'inspect': 'inspect'}
 FUSE_CONSUMERS = {_IT + 'for_each': 'for_each', _IT + 'try_for_each': 'try_for_each', _IT + 'any': 'any', _IT + 'all': 'all',
-                  _IT + 'find_map': 'find_map', _IT + 'fold': 'fold', _IT + 'collect': 'collect'}
+                  _IT + 'find_map': 'find_map', _IT + 'fold': 'fold', _IT + 'collect': 'collect', _IT + 'try_fold': 'try_fold'}
 
 
 def _def_call_block(b, op):
@@ -516,7 +516,7 @@ def fuse_iterators(F):
             cons = FUSE_CONSUMERS.get(_callee_fn(t))
             if cons is None:
                 continue
-            if len(t['args']) != (3 if cons == 'fold' else 1 if cons == 'collect' else 2):
+            if len(t['args']) != (3 if cons in ('fold', 'try_fold') else 1 if cons == 'collect' else 2):
                 continue
             cclo = _closure_of(F, b, t['args'][-1]) if cons != 'collect' else None
             if cclo is None and cons != 'collect':
@@ -553,7 +553,7 @@ def fuse_iterators(F):
                 src = at['args'][0]
             if src['k'] == 'const' or src['p']['proj']:
                 continue
-            want = {'for_each': 2, 'try_for_each': 2, 'any': 2, 'all': 2, 'find_map': 2, 'fold': 3, 'collect': 0}[cons]
+            want = {'for_each': 2, 'try_for_each': 2, 'any': 2, 'all': 2, 'find_map': 2, 'fold': 3, 'collect': 0, 'try_fold': 3}[cons]
             if cons == 'collect':
                 if not stages or not any(k in ('map', 'filter_map') for k, _, _ in stages):
                     continue        # a bare `iter.collect()` builds the collection from the items as they are: nothing to unfold
@@ -562,6 +562,8 @@ def fuse_iterators(F):
             dst, target = t['dst'], t['target']
             dty = b.locals[dst['l']]['ty']
             if cons == 'try_for_each' and not re.match(r'^(?:std|core)::result::Result<\(\), ', dty):
+                continue
+            if cons == 'try_fold' and not re.match(r'^(?:std|core)::result::Result<', dty):
                 continue
             pos = {'line': t.get('line'), 'col': t.get('col'), 'exp': False}
 
@@ -578,7 +580,7 @@ def fuse_iterators(F):
             first = stages[0][2] if stages else cclo
             if first is None:
                 continue
-            item_ty = first.locals[3 if (cons == 'fold' and not stages) else 2]['ty']
+            item_ty = first.locals[3 if (cons in ('fold', 'try_fold') and not stages) else 2]['ty']
             if stages and stages[0][0] in ('filter', 'inspect'):
                 item_ty = re.sub(r'^&', '', item_ty)
             elif not stages and cons in ():
@@ -601,6 +603,9 @@ def fuse_iterators(F):
             elif cons == 'fold':
                 acc = newlocal(dty)
                 erv = [dict(pos, dst=dst, rv=use(acc))]
+            elif cons == 'try_fold':
+                acc = newlocal((_generic_args(dty) or ['?'])[0])
+                erv = [dict(pos, dst=dst, rv=_agg('Ok', {'k': 'move', 'p': acc}))]
             elif cons == 'collect':
                 erv = []
             else:
@@ -659,6 +664,14 @@ def fuse_iterators(F):
                 tmp, nb_ = call_closure(cur_block, cop, cclo, [{'k': 'move', 'p': acc}, {'k': 'move', 'p': cur_val}], crty)
                 b.blocks[nb_]['stmts'].append(dict(pos, dst=acc, rv=use(tmp)))
                 b.blocks[nb_]['term'] = dict(pos, k='goto', target=H)
+            elif cons == 'try_fold':
+                tmp, nb_ = call_closure(cur_block, cop, cclo, [{'k': 'move', 'p': acc}, {'k': 'move', 'p': cur_val}], crty)
+                d3 = newlocal('isize')
+                b.blocks[nb_]['stmts'].append(dict(pos, dst=d3, rv={'k': 'discr', 'p': tmp}))
+                aty = b.locals[acc['l']]['ty']
+                cont = newblock([dict(pos, dst=acc, rv=use({'l': tmp['l'], 'proj': [{'dc': 0, 'name': 'Ok'}, {'f': 0, 'name': '0', 'ty': aty}]}))], dict(pos, k='goto', target=H))
+                brk = newblock([dict(pos, dst=dst, rv=use(tmp))], dict(pos, k='goto', target=target))
+                b.blocks[nb_]['term'] = dict(pos, k='switch', on={'k': 'move', 'p': d3}, targets=[[0, cont]], otherwise=brk, fused=True)
             else:
                 tmp, nb_ = call_closure(cur_block, cop, cclo, [{'k': 'move', 'p': cur_val}], crty)
                 if cons == 'for_each':
@@ -678,7 +691,7 @@ def fuse_iterators(F):
                     hit = newblock([dict(pos, dst=dst, rv=use(tmp))], dict(pos, k='goto', target=target))
                     b.blocks[nb_]['term'] = dict(pos, k='switch', on={'k': 'move', 'p': d3}, targets=[[0, H]], otherwise=hit, fused=True)
             # entry: the consumer call becomes `[acc = init;] goto H`; the adaptor calls become plain gotos
-            if cons == 'fold':
+            if cons in ('fold', 'try_fold'):
                 b.blocks[bi]['stmts'].append(dict(pos, dst=acc, rv={'k': 'use', 'ops': [t['args'][1]]}))
             if cons == 'collect':
                 b.blocks[bi]['term'] = dict(pos, k='call', func={'k': 'const', 'fn': 'std::vec::Vec::<T>::new', 'dbg': 'fused collect'}, args=[], dst=dst, target=H, fused=cons)
